@@ -184,6 +184,10 @@ def check(run):
         # SAME: the weight that draws the next skip is the weight kept
         u3 = _skip_form(c_exit, c0, w_exit)
         if u3 is None:
+            extra = sorted(t[1] for t in ir.subterms(c_exit) if t[0] == "field0" and "." in t[1])      # collaborator state
+            if extra:
+                raise AnalysisError(f"{fq}: the next skip target is computed from state outside the Algorithm L schema "
+                                    f"(self.{extra[0]}); whether that state mirrors the skip counter is not decided")
             stale = _skip_form(c_exit, c0, w0) if w_exit != w0 else None
             msg = f"[{gtxt}] next skip target must be next + floor(log U / log(1 - W_exit)) + 1 with the weight kept " \
                   f"at exit"
